@@ -193,6 +193,9 @@ func c18Gen(t *rapid.T) C18Case {
 		`sum by (tier, env) (count_over_time({}[5s])) / sum by (tier, env) (bytes_over_time({}[5s]))`,
 		`count_over_time({}[2s]) + count_over_time({}[2s])`,
 		`sum by (tier, env) (count_over_time({}[5s])) or sum by (tier, env) (count_over_time({tier="web"}[5s]))`,
+		// NaN among the inputs of an aggregation (1/0 for the series that count one line)
+		`max by (tier) (count_over_time({}[5s]) / (count_over_time({}[5s]) - 1))`,
+		`min (count_over_time({}[3s]) / (count_over_time({}[3s]) - 1))`,
 	}).Draw(t, "query")
 	// A generated nesting of integer-valued aggregations whose grouping clauses name the same
 	// few labels in any order of by / without: the label sets of the answer must not depend on
@@ -219,6 +222,7 @@ func c18Gen(t *rapid.T) C18Case {
 			return kw + " (" + strings.Join(ls, ", ") + ")"
 		}
 		q := rapid.SampledFrom([]string{`count_over_time({}[5s])`, `bytes_over_time({}[3s])`, `count_over_time({} | drop msg [5s])`,
+			`(count_over_time({}[5s]) / (count_over_time({}[5s]) - 1))`, `(count_over_time({} | drop msg [3s]) % (count_over_time({} | drop msg [3s]) - 2))`,
 			`max_over_time({} | pattern "<method> <path> <code>" | unwrap code [5s]) ` + grouping("g0")}).Draw(t, "gn-range")
 		depth := rapid.IntRange(1, 3).Draw(t, "gn-depth")
 		if common != "" {
@@ -239,7 +243,7 @@ func c18Gen(t *rapid.T) C18Case {
 		c.Waves = []int{web}
 	case strings.Contains(c.Query, ") or "):
 		c.Waves = []int{n, web}
-	case strings.Contains(c.Query, ") / ") || strings.Contains(c.Query, ") + "):
+	case strings.Contains(c.Query, ") / ") || strings.Contains(c.Query, ") + ") || strings.Contains(c.Query, ") % ") || strings.Contains(c.Query, "]) / ("):
 		c.Waves = []int{n, n}
 	}
 	c.Start, c.End, c.Step = base, base+6e9, 1e9
